@@ -42,42 +42,57 @@ func runProperty(e *Engine, o runOpts) *propResult {
 	}
 	// Which failures belong to this property? Obligations of clauses tagged with it, of untagged (shared) clauses,
 	// panic / precondition obligations (C06), lemmas. Failing clauses that belong only to OTHER properties are
-	// withdrawn from the assumptions and the check is repeated: if everything of this property still discharges,
-	// its proof does not depend on them and the property holds on this tree.
-	var foreign []*Obligation
-	own := 0
-	for _, ob := range res.obls {
-		if ob.Vacuity || strings.HasSuffix(ob.Name, "!unrestricted") || ob.Status == "unsat" {
-			continue
+	// withdrawn from the assumptions and the check is repeated (to a fixpoint: withdrawing a callee's clause can make
+	// a caller's clause fail in turn): if everything of this property still discharges, its proof does not depend
+	// on them and the property holds on this tree.
+	var notes []string
+	for pass := 0; pass < 3; pass++ {
+		var foreign []*Obligation
+		own := 0
+		for _, ob := range res.obls {
+			if ob.Vacuity || strings.HasSuffix(ob.Name, "!unrestricted") || ob.Status == "unsat" {
+				continue
+			}
+			if obligationOwned(ob, o.prop) {
+				own++
+			} else {
+				lbl := ob.Label
+				if i := strings.Index(lbl, "@"); i >= 0 {
+					lbl = lbl[:i]
+				}
+				if !droppedClauses[ob.Func+"."+lbl] {
+					foreign = append(foreign, ob)
+				}
+			}
 		}
-		if obligationOwned(ob, o.prop) {
-			own++
-		} else {
-			foreign = append(foreign, ob)
+		if own > 0 || len(foreign) == 0 {
+			break
+		}
+		for _, ob := range foreign {
+			lbl := ob.Label
+			if i := strings.Index(lbl, "@"); i >= 0 {
+				lbl = lbl[:i]
+			}
+			if droppedClauses[ob.Func+"."+lbl] {
+				continue
+			}
+			droppedClauses[ob.Func+"."+lbl] = true
+			notes = append(notes, fmt.Sprintf("clause %s.%s (properties %v) is not discharged on this tree; it is not part of %s and was withdrawn from the assumptions for another pass", ob.Func, lbl, ob.Tags, o.prop))
+		}
+		e2, err := load(o)
+		if err != nil {
+			res.engErrs = append(res.engErrs, "reload: "+err.Error())
+			return res
+		}
+		res = runPropertyOnce(e2, o)
+		res.engine = e2
+		if len(res.engErrs) > 0 {
+			break
 		}
 	}
-	if own > 0 || len(foreign) == 0 {
-		res.obls = filterOwned(res.obls, o.prop)
-		return res
-	}
-	for _, ob := range foreign {
-		lbl := ob.Label
-		if i := strings.Index(lbl, "@"); i >= 0 {
-			lbl = lbl[:i]
-		}
-		droppedClauses[ob.Func+"."+lbl] = true
-		res.notes = append(res.notes, fmt.Sprintf("clause %s.%s (properties %v) is not discharged on this tree; it is not part of %s and was withdrawn from the assumptions for a second pass", ob.Func, ob.Label, ob.Tags, o.prop))
-	}
-	e2, err := load(o)
-	if err != nil {
-		res.engErrs = append(res.engErrs, "reload: "+err.Error())
-		return res
-	}
-	res2 := runPropertyOnce(e2, o)
-	res2.notes = res.notes
-	res2.obls = filterOwned(res2.obls, o.prop)
-	res2.engine = e2
-	return res2
+	res.notes = notes
+	res.obls = filterOwned(res.obls, o.prop)
+	return res
 }
 
 // obligationOwned: does a failure of this obligation count against property prop?
@@ -172,7 +187,20 @@ func runPropertyOnce(e *Engine, o runOpts) *propResult {
 	}
 	res.engErrs = append(res.engErrs, e.loadErrs...)
 	res.pool = NewSolverPool(filepath.Join(o.verifDir, ".cache"), filepath.Join(o.verifDir, ".cache", "work"), !o.noCache && o.tier != "thorough")
-	res.obls = dischargeAll(e, res.units, o, res.pool)
+	units := res.units
+	if o.only != "" {
+		keep := map[string]bool{}
+		for _, n := range strings.Split(o.only, ",") {
+			keep[n] = true
+		}
+		units = nil
+		for _, u := range res.units {
+			if keep[u.name] || u.name == "lemmas" {
+				units = append(units, u)
+			}
+		}
+	}
+	res.obls = dischargeAll(e, units, o, res.pool)
 	return res
 }
 
